@@ -16,7 +16,7 @@
    not only the next one.  Outside the class the property is FALSE on the code:
    C08a_refuted_outside_K1, C08b_refuted_outside_K2 (recorded findings 8.3, 8.4
    of DESIGN.md, open entries of KNOWN_FINDINGS.txt). *)
-From TM Require BuiltinFacts Json RustOps Convert.
+From TM Require BuiltinFacts Json RustOps Convert ConvertSpec ExpandLemmas.
 From TMGen Require Builtins.
 From TM Require Import Base Mapper Monitors Trace MapperInv MapperProps Absorb MapperAbsorb Findings.
 
@@ -128,6 +128,24 @@ Theorem C08_builtin_layouts_in_class :
               /\ K1 BuiltinFacts.spec_is_action L = true /\ K2 BuiltinFacts.spec_is_action L = true.
 Proof. exact BuiltinFacts.builtins_ok. Qed.
 Print Assumptions C08_builtin_layouts_in_class.
+
+(* C08 starts from the layout the mapper is given.  The conversion of the
+   shorthand layout hands the mapper exactly the `absorbing` lists the written-
+   out expansion specifies (ConvertSpec.expand: the alias/row choice of the
+   trigger side substituted into the written `absorbing` entry, also for
+   mappings whose repeat mode is set by a later repeat-only entry); the loader
+   engine compares the real conversion's lists with the specification's
+   (clause C08.absorbing_converted). *)
+Theorem C08_conversion_hands_over_the_specified_absorbing_lists :
+  forall (f : Fancy.fancy_layout) (L : layout),
+    Convert.convert f = RustOps.Ok L ->
+    ConvertSpec.expand f = RustOps.Ok L
+    /\ forall Ls, ConvertSpec.expand f = RustOps.Ok Ls -> map m_abs L = map m_abs Ls.
+Proof.
+  intros f L H. rewrite <- ExpandLemmas.convert_refines_spec. split; [exact H|].
+  intros Ls Hs. rewrite H in Hs. inversion Hs. reflexivity.
+Qed.
+Print Assumptions C08_conversion_hands_over_the_specified_absorbing_lists.
 
 (* Non-vacuity inside the class: [LEFTSHIFT,A]->[X] abs[LEFTSHIFT], [LEFTSHIFT,B]->[Y];
    LEFTSHIFT A down/up: LEFTSHIFT is absorbed (a victim for B); B passes through
